@@ -149,13 +149,35 @@ kf("C10", "C10-spirv-consume-block-nil", "code after a `continue`/`break` at the
 kf("C02", "C02-wgul-aggregate-load-type", "`workgroupUniformLoad(&warr)` / `(&wst)` on a workgroup array or struct emits an OpLoad whose result type differs from the pointee type of the workgroup variable",
    ["C02|type-load|*OpLoad: result type * differs from the pointee type*|F9/workgroupUniformLoad/*"])
 kf("C02", "C02-std140-matrix-stride", "matCx2 (and f16 matrix) members of Uniform blocks get MatrixStride 8 (or 4): Vulkan's extended (std140) layout requires 16 without the uniformBufferStandardLayout feature",
-   ["C02|layout-align-std140|*|corpus/access|*", "C02|layout-align-std140|*|corpus/f16|*", "C02|layout-align-std140|*|corpus/globals|*", "C02|layout-align-std140|*|corpus/hlsl_mat_cx2|*", "C02|layout-align-std140|*|corpus/ptr-deref-test|*"])
+   ["C02|layout-align-std140|*|corpus/access|*", "C02|layout-align-std140|*|corpus/f16|*", "C02|layout-align-std140|*|corpus/globals|*", "C02|layout-align-std140|*|corpus/hlsl_mat_cx2|*", "C02|layout-align-std140|*|corpus/ptr-deref-test|*",
+    "C02|layout-align-std140|*MatrixStride*|F1s/type/f16/mat*<f16>/uniform/compute|*"])
 kf("C02", "C02-transpose-result-type", "transpose()/determinant() results are typed as the argument (see C09-math-result-type): OpCompositeExtract on the transposed value walks the wrong type",
    ["C02|type-composite-extract|*|builtin_function_sampler|*"])
 kf("C02", "C02-ptr-private-access-chain-class", "member access through a ptr<private, composite> parameter emits OpAccessChain with a Function-class result pointer on a Private-class base",
    ["C02|type-access-chain|*storage class*|pointer_params_compound_incdec|*"])
 kf("C02", "C02-binding-array-capability", "an unsized binding_array<T> becomes a run-time descriptor array without declaring capability RuntimeDescriptorArray",
    ["C02|capability|*RuntimeDescriptorArray*|corpus/binding-arrays|*"])
+kf("C02", "C02-rzsw-missing-selection-merge", "ImageLoad policy ReadZeroSkipWrite on an image without mip levels (storage or multisampled texture): the bounds test ends its block in OpBranchConditional without any OpSelectionMerge (`@group(0) @binding(0) var t: texture_storage_2d<r32float, read>; ... textureLoad(t, c)`)",
+   ["C02|selection-structured|*has no OpSelection*|F1s/textureLoad/storage_*|*bounds=rzsw*", "C02|selection-structured|*has no OpSelection*|F1s/textureLoad/*multisampled_2d*|*bounds=rzsw*"] +
+   ["C02|selection-structured|*has no OpSelection*|corpus/" + n + "|*bounds=rzsw*" for n in ["bounds-check-image-restrict", "bounds-check-image-restrict-depth", "bounds-check-image-rzsw", "bounds-check-image-rzsw-depth", "image", "storage-textures", "texture-external"]])
+kf("C02", "C02-restrict-clamp-constant-type", "ImageLoad policy Restrict on a 2-or-more-component coordinate: the clamp constant is an OpConstantComposite of type vecN<u32> built from i32 OpConstants (`textureLoad(t2d, vec2<i32>(..), 0)`)",
+   ["C02|type-constant|*constituent # has type i#, component type is u#|F1s/textureLoad/*|*bounds=restrict*"] +
+   ["C02|type-constant|*constituent # has type i#, component type is u#|corpus/" + n + "|*bounds=restrict*" for n in ["image", "storage-textures", "texture-external"]])
+kf("C02", "C02-texture-load-sint-conversion", "`vec4<f32>(textureLoad(t, ..))` with t a sampled texture of i32: the conversion is dropped (the lowerer types the load as vec4<f32>), so a vec4<i32> is stored into a vec4<f32> variable (`@vertex fn main(..) -> @builtin(position) vec4<f32> { let r = textureLoad(t, c, l); return vec4<f32>(r); }`, t: texture_2d<i32>)",
+   ["C02|type-store|OpStore: object type vec#<i#> differs from the pointee type vec#<f#>|F1s/textureLoad/*<i32>/*/vertex|*"])
+kf("C02", "C02-const-composite-index", "constant index into a module/let constant matrix or nested array (`const k = mat2x2<f32>(1.0, 2.0, 3.0, 4.0); out = k[1];`) is folded over the flattened scalars: a scalar is stored where a column / inner array is expected (const-evaluator defect, see C06)",
+   ["C02|type-store|OpStore: object type f# differs from the pointee type vec#<f#>|F1s/const/mat*|*", "C02|type-store|OpStore: object type f# differs from the pointee type vec#<f#>|F1s/const/array<vec3<f32>, 2>*|*",
+    "C02|type-store|OpStore: object type u# differs from the pointee type array<u#,%#>*|F1s/const/array<array<u32, 2>, 2>/module/compute|*"])
+kf("C02", "C02-bgra8unorm-duplicate-image-type", "texture_storage_*<bgra8unorm, _> and texture_storage_*<rgba8unorm, _> of one dimensionality in one module both become OpTypeImage .. Rgba8: the non-aggregate type is declared twice",
+   ["C02|type-unique|*OpTypeImage: type image## duplicates*|F1s/texpair/storage_2d<rgba8unorm,*>+storage_2d<bgra8unorm,*>/fragment|*", "C02|type-unique|*OpTypeImage: type image## duplicates*|F1sMany/images|*"])
+kf("C02", "C02-workgroup-uniform-load-array-type", "workgroupUniformLoad(&w) with w: array<u32, 4> loads with the ArrayStride-decorated array type from a pointer to the undecorated workgroup array type (OpLoad result type differs from the pointee)",
+   ["C02|type-load|*OpLoad: result type array<u#,%#>## differs from the pointee type array<u#,%#>##|F1s/workgroupUniformLoad/array<u32, 4>/compute|*"])
+kf("C02", "C02-external-texture-query-size", "textureLoad on a texture_external under an ImageLoad bounds policy queries the plane size with OpImageQuerySize on a sampled, single-sampled 2D image (needs MS = 1 or Sampled = 0/2; OpImageQuerySizeLod is the instruction for sampled images)",
+   ["C02|image-query-class|*OpImageQuerySize on a #D/#D/#D/Cube image needs MS*|corpus/texture-external|*bounds=*"])
+kf("C02", "C02-f16-push-constant-capability", "a var<push_constant> whose struct holds f16 members (`enable f16; struct PC { a: f16 } var<push_constant> pc: PC;`) declares Float16 and the 16-bit buffer capabilities but not StoragePushConstant16, which SPV_KHR_16bit_storage requires for 16-bit elements in the PushConstant storage class",
+   ["C02|capability|*PushConstant storage class requires capability StoragePushConstant#, which is not de*|F1s/type/push_constant/f16/compute|*"])
+kf("C02", "C02-atomic-f32-integer-opcode", "atomicSub/atomicMax/atomicMin on atomic<f32> (accepted by the front end) are emitted as the integer opcodes OpAtomicISub/OpAtomicUMax/OpAtomicUMin on a float pointee",
+   ["C02|type-atomic|*pointee type f# is not an integer scalar|F1s/type/atomicf32/storage/atomic*/compute|*"])
 
 # ---------------------------------------------------------------- C09 (IR contract)
 kf("C09", "C09-global-init-scalar-conversion", "`var<private> p: i32 = i32(-2147483648);` is lowered to a global Compose of the scalar type i32 from one i32 operand (a scalar type is not constructible by Compose)",
